@@ -13,7 +13,7 @@ WRITE_WIDTH = {"write_two": 2, "write_one": 1, "write_year": 4}
 def run(chk, tier):
     P = Prog("default")
     chk.configs.add("default")
-    for r in (r_numeric, r_setters, r_fixed, r_names, r_flow):
+    for r in (r_numeric, r_setters, r_fixed, r_names, r_flow, r_whitespace, r_sign_arms):
         chk.guarded(r, P, tier)
     chk.guarded(c12.r_numeric_writers, P, tier)
     chk.assume("the round trip itself (for any value), white-space and letter-case perturbations are NOT decided; only that reader and writer agree item by item on width, sign and field")
@@ -136,3 +136,40 @@ def r_flow(chk, P, tier):
         for name, ln, ok, dropped in rows:
             chk.expect(dropped == 0 and ok > 0, "%s: %s #%d" % (fn.split("::")[-1], name, [r_ for r_ in rows if r_[0] == name].index((name, ln, ok, dropped)) + 1),
                        "the value scanned by scan::%s (line %s) does not reach a Parsed setter on %d of %d successful paths" % (name, ln, dropped, ok + dropped), loc=P.loc(fn, ln))
+
+
+def r_whitespace(chk, P, tier):
+    """the format-string tokenizer and the reader classify white space with one predicate: Unicode White_Space (char::is_whitespace, which is also what
+    str::trim_start uses). A run classified differently by the tokenizer (Space item vs part of a Literal) no longer matches what the reader skips."""
+    chk.rule("WS.one_predicate", "every white-space test in format::{strftime, parse, scan} is char::is_whitespace (the Unicode notion that str::trim_start uses); none is the ASCII variant", floor=5)
+    n = 0
+    for name, f in sorted(P.fns.items()):
+        if "mir" not in f or not name.startswith("format::") or "::tests::" in name:
+            continue
+        for b in f["mir"]["blocks"]:
+            t = b["t"]
+            if b.get("cleanup") or t["k"] != "call":
+                continue
+            r = t["callee"].get("resolved") or t["callee"].get("def") or ""
+            if r.split("::")[-1] in ("is_whitespace", "is_ascii_whitespace"):
+                n += 1
+                chk.expect(r == "std::char::methods::<impl char>::is_whitespace", "%s #%d" % (name.split("::{")[0].split("::")[-1], n),
+                           "%s tests white space with %s; the other tokenizer/reader sites use char::is_whitespace (Unicode)" % (name, r.split("::")[-1]), loc=P.loc(name, t.get("ln")))
+
+
+def r_sign_arms(chk, P, tier):
+    """after an explicit sign the reader takes every digit that follows, for '+' exactly as for '-' (the writer prints all digits of a signed year)"""
+    chk.rule("SIB.sign_arms", "in parse_internal every scan::number call that follows an explicit sign (&s[1..]) has the same bounds (1, usize::MAX)", floor=2)
+    fn = "format::parse::parse_internal"
+    seen = {}
+    for p_ in Sym(P, fn).paths(max_paths=6000):
+        for c in p_.calls:
+            if isinstance(c[1], str) and c[1] == "format::scan::number":
+                a0 = c[2][0]
+                after_sign = any(x[0] == "agg" and x[2] == "std::ops::RangeFrom" and const_of(x[4][0]) == 1 for x in walk_terms(a0))
+                if after_sign:
+                    seen[(c[3] if len(c) > 3 else None)] = (const_of(c[2][1]), const_of(c[2][2]))
+    if len(seen) < 2:
+        raise AnchorLost("parse_internal: %d signed scan::number calls" % len(seen))
+    for k, (lo, hi) in sorted(seen.items(), key=lambda kv: str(kv[0])):
+        chk.expect(lo == 1 and hi == (1 << 64) - 1, "number after sign @%s" % (k[1] if isinstance(k, tuple) else k), "scan::number after an explicit sign is bounded by (%s, %s), expected (1, usize::MAX) in both sign arms" % (lo, hi), loc=P.loc(fn, k[1] if isinstance(k, tuple) else None))
